@@ -10,3 +10,16 @@ package recordstore
 //@   property C06
 //@   safety -all
 //@   assert-call strings.ReplaceAll: old == "%path" ==> validName(new)
+
+// C30: the directory walk keeps a regular file iff its name decodes against the record path of this path and,
+// when an end instant is given, the decoded start is not after it; the kept entry carries that file and start.
+
+//@ func FindSegments$1
+//@   property C30
+//@   safety -all
+//@   assert-call Decode: format == recordPath && v == fpath
+//@   assert-call IsDir: true
+//@   ensures [kept-iff-segment-not-after-end] len(segments) == old(len(segments)) + b2i(err == nil && !resultof(IsDir) && resultof(Decode) && (end == nil || !((*end).ns < pa.Start.ns)))
+//@   ensures [entry-is-that-file-and-start] err == nil && !resultof(IsDir) && resultof(Decode) && (end == nil || !((*end).ns < pa.Start.ns)) ==> segments[len(segments)-1] != nil && segments[len(segments)-1].Fpath == fpath && segments[len(segments)-1].Start.ns == pa.Start.ns
+//@   ensures [regular-files-only] called(IsDir) == b2i(err == nil) && (called(Decode) == 1 ==> !resultof(IsDir))
+//@   ensures [earlier-entries-untouched] forall(k, 0, old(len(segments)), segments[k] == old(segments[k]))
